@@ -69,7 +69,7 @@ fn flatten(stored: &[Vec<History>], max_level: usize) -> Vec<History> {
 
 fn common_assumptions(report: &mut Report) {
     report.assumptions.extend([
-        "64-bit little-endian host (x86_64-unknown-linux-gnu), rustc 1.95; the 32-bit-only branches of the crate are compiled out".to_string(),
+        "64-bit little-endian host (x86_64-unknown-linux-gnu), rustc 1.95; the 32-bit-only branches of the crate are compiled out of the native engine (C03, C01 thorough and C20 thorough add Miri-hosted runs for 32-bit and big-endian targets)".to_string(),
         "the shim allocator is the allocator: fresh addresses, always-moving realloc, refusal = null with the old block intact".to_string(),
         "state de-duplication uses a 128-bit SipHash of the exact canonical state (addresses and slot names removed); a hash collision could merge two states".to_string(),
         "engine built in release mode with debug-assertions on (the crate's own debug_assert!s are extra oracles)".to_string(),
@@ -113,7 +113,7 @@ pub fn run_property(prop: &str, tier: &str, threads: usize, budget: &Budget, fin
     if std::env::var("LSVERIF_HOSTED_PLAN").is_ok_and(|p| p == "big") {
         // texts around the largest length a heap handle stores inline (32-bit targets only)
         let d: usize = std::env::var("LSVERIF_DEPTH").ok().and_then(|s| s.parse().ok()).unwrap_or(1);
-        report.rule = format!("big-length exploration: every sequence of at most {d} operations (push, push_str, pop, three truncations, clear, insert, remove, two reservations, two shrinks, drop, clone, clone_from) on two slots from {} roots (texts of B-2..=B+2 bytes; buffers of capacity B, B+1, B+3 holding nothing, 10 bytes, B-1 bytes or capacity-many bytes; B = {} is the largest length a heap handle stores in its own second word), next to a String model; oracles of {prop}: outcome, text, length, capacity, exact shrink, every block released once with its layout, nothing left allocated; distinct = distinct (root kind, last operation)", crate::big::roots().len(), crate::big::B);
+        report.rule = format!("big-length exploration: every sequence of at most {d} operations (push, push_str, pop, three truncations, clear, insert, remove, two reservations, two shrinks, drop, clone, clone_from) on two slots from {} roots (texts of B-2..=B+2 bytes; buffers of capacity B, B+1, B+3 holding nothing, 10 bytes, B-1 bytes or capacity-many bytes; borrowed static texts of B-1, B, B+1 bytes; B = {} is the largest length a heap handle stores in its own second word), next to a String model; oracles of {prop}: outcome, text, length, capacity, exact shrink, every block released once with its layout, nothing left allocated; distinct = distinct (root kind, last operation)", crate::big::roots().len(), crate::big::B);
         report.bounds.push(format!("target: {} bit, {} endian{}", usize::BITS, if cfg!(target_endian = "big") { "big" } else { "little" }, if std::env::var("LSVERIF_MIRI").is_ok() { " (executed by Miri)" } else { "" }));
         if !crate::big::applicable() {
             report.bounds.push("not applicable on this target: B = 2^56 - 2 cannot be reached".into());
